@@ -3,9 +3,12 @@ package c13
 
 import (
 	"fmt"
+	"os"
 	"path/filepath"
 	"strings"
+	"sync/atomic"
 	"testing"
+	"time"
 
 	"github.com/avfs/avfs"
 	"github.com/avfs/avfs/vfs/memfs"
@@ -291,12 +294,42 @@ func a1(a []string) string {
 	return ""
 }
 
+// probe is the call in flight; the watchdog reports it when it does not come back.
+type probe struct {
+	x     *sut
+	fn    string
+	a     []string
+	since time.Time
+}
+
+var inFlight atomic.Pointer[probe]
+
+// watchdog: the functions under test are pure string functions (microseconds). One that is
+// still running after a minute is spinning ("never panic" is in the statement; "returns" is C07's,
+// but a check that waits for ever decides nothing): reported as a violation, and the process ends.
+func watchdog(c *vt.Ctx) {
+	go func() {
+		for {
+			time.Sleep(2 * time.Second)
+			if p := inFlight.Load(); p != nil && time.Since(p.since) > time.Minute {
+				d := vt.Dev("fn", p.fn, "os", p.x.r.os, "class", "hang")
+				d.Detail = fmt.Sprintf("%s/%s %s(%q) has not returned after a minute (it is spinning)", p.x.name, p.x.r.os, p.fn, p.a)
+				c.Report(d, Case{Kind: "call", Fn: p.fn, OS: p.x.r.os, FS: p.x.name, Args: p.a})
+				c.Finish()
+				os.Exit(1)
+			}
+		}
+	}()
+}
+
 func check(c *vt.Ctx, x *sut, fn string, a []string) *vt.Failure {
 	if fn == "Abs" && !absComparable(x, a[0]) {
 		c.Label("abs-not-comparable")
 		return nil
 	}
+	inFlight.Store(&probe{x, fn, a, time.Now()})
 	got, want := call(x, fn, a)
+	inFlight.Store(nil)
 	c.Eval(1)
 	if got == want {
 		return nil
@@ -348,6 +381,7 @@ func TestCheck(t *testing.T) {
 	c := vt.New(t, "C13")
 	defer c.Finish()
 	suts := newSuts(c)
+	watchdog(c)
 	mem := suts[:2]
 	find := func(fs, os string) *sut {
 		for _, x := range suts {
